@@ -60,7 +60,16 @@ class ReplayBuild:
         path = os.path.join(self.dir, "input.txt")
         with open(path, "w") as f:
             f.write(text)
-        p = subprocess.run([self.bin, path], capture_output=True, text=True, timeout=600)
+        # an input that gets no answer (the real code hangs, e.g. a writer waiting for a background
+        # thread that died) is NOT judged by a bounded family: no VIOLATION, no pass - the line
+        # below is neither `REPLAY violated` nor `REPLAY holds`.  Whole-history oracles that re-run
+        # a history once per file-system call get the long limit.
+        long_oracle = any(text.startswith("oracle " + o) for o in ("faults", "crash"))
+        limit = 600 if long_oracle else 60
+        try:
+            p = subprocess.run([self.bin, path], capture_output=True, text=True, timeout=limit)
+        except subprocess.TimeoutExpired:
+            return "REPLAY no-answer within %d s (not judged)" % limit
         out = (p.stdout + p.stderr).strip()
         return out
 
